@@ -140,7 +140,8 @@ func TestC17(t *testing.T) {
 	defer run.Finish()
 	n := run.N(400, 24000)
 	for i := 0; i < n; i++ {
-		sc := c17Gen(run.Rand(i), i, run.Thorough())
+		// overlapping commands: every scenario may contain them in the thorough tier, one in five in quick
+		sc := c17Gen(run.Rand(i), i, run.Thorough() || i%5 == 4)
 		if !run.Mine(i, sc) {
 			continue
 		}
